@@ -20,6 +20,7 @@ an exact round trip of the offending values.
 """
 
 import io
+import json
 import math
 import warnings
 
@@ -1623,6 +1624,50 @@ def run_serialize(case):
     k = BinaryCIFFile.read(io.BytesIO(buf3.getvalue()))
     if not has_nan:
         o.check(k == f, "file_roundtrip_equal", "lazy rewrite differs")
+    # the written object is edited in place (rows reversed: same value set, so every encoding
+    # parameter stays valid) and written again: the second file holds the new content
+    edited = 0
+    # (the file may hold the very arrays of `truth`: take copies before editing)
+    truth = {key: (np.array(a, copy=True), None if m is None else np.array(m, copy=True), kind) for key, (a, m, kind) in truth.items()}
+    for b in case["blocks"]:
+        for c in b["categories"]:
+            for col in c["columns"]:
+                fcol = f[b["name"]][c["name"]][col["name"]]
+                arr = fcol.data.array
+                # element-wise encodings keep their (already resolved) parameters valid for the
+                # reversed rows; a Delta step does not (other differences) - such columns stay as they are
+                chains = [col["chain"]] + ([col["mask"]["chain"]] if col.get("mask") and col["mask"].get("chain") else [])
+                has_delta = '"delta"' in json.dumps(chains)  # also inside the nested chains of a StringArray
+                if has_delta:
+                    truth[(b["name"], c["name"], col["name"])] = (truth[(b["name"], c["name"], col["name"])][0][:0],) + truth[(b["name"], c["name"], col["name"])][1:]
+                    continue
+                if len(arr) >= 2 and arr.flags.writeable:
+                    arr[:] = arr[::-1].copy()
+                    if fcol.mask is not None and fcol.mask.array.flags.writeable:
+                        fcol.mask.array[:] = fcol.mask.array[::-1].copy()
+                    edited += 1
+    if edited:
+        o.label("rewritten_after_in_place_edit")
+        buf5 = io.BytesIO()
+        f.write(buf5)
+        g5 = BinaryCIFFile.read(io.BytesIO(buf5.getvalue()))
+        for b in case["blocks"]:
+            for c in b["categories"]:
+                for col in c["columns"]:
+                    a, m, kind = truth[(b["name"], c["name"], col["name"])]
+                    if len(a) < 2:
+                        continue
+                    y = g5[b["name"]][c["name"]][col["name"]]
+                    want = a[::-1]
+                    if kind == "float":
+                        okv = _same_float_bits(want, y.data.array.astype(a.dtype))
+                    elif kind == "int":
+                        okv = [int(v) for v in y.data.array.tolist()] == [int(v) for v in want.tolist()]
+                    else:
+                        okv = y.data.array.tolist() == want.tolist()
+                    o.check(okv, "file_roundtrip_equal", lambda: f"{col['name']!r} written again after an in-place edit: read {y.data.array.tolist()!r:.200}, want {want.tolist()!r:.200}")
+                    if m is not None and y.mask is not None:
+                        o.check_eq(y.mask.array.tolist(), m[::-1].tolist(), "mask_roundtrip", f"mask of {col['name']!r} after an in-place edit")
     if masked:
         o.label("masked")
     o.mark_nontrivial(ncols >= 2 and (masked or lossy_chain))
